@@ -182,7 +182,7 @@ calls stop exactly where the one-shot decoder stops. -/
 theorem C11_rle_stream_eq_oneshot (w : Nat) (hw : w ≤ 32) (bytes : List UInt8) (ops : List Rle.Op)
     (N : Nat) (hN : Rle.demand ops ≤ N) :
     Rle.runOps (Rle.Dec.init w bytes) ops = Rle.cursorOps (Rle.decodeAll w bytes N) ops := by
-  rw [RleDecoder.runOps_eq_cursor ops _ (RleDecoder.WF_init w hw bytes), RleDecoder.future_init,
+  rw [RleDecoder.runOps_eq_cursor ops _ (RleDecoder.WF_init w hw bytes), RleDecoder.future_init w hw,
     RleDecoder.decodeAll_eq w hw, RleDecoder.cursorOps_take ops _ N hN]
 
 example : Rle.runOps (Rle.Dec.init 1 [0x03, 0xFD, 0x08, 0x01, 0x03, 0x00]) [.get, .skip 3, .getBatch 7, .get, .getBatch 9]
